@@ -342,7 +342,8 @@ def part_cia(ctx, tmp):
                   'temperatures / linear inside)' % (h._xsec_grid[i, j], temps[i], allwn[order][j], want[i, j])
         else:
             grid = np.sort(np.array(rng.sample(list(allwn), min(3, len(allwn)))))
-            for t in [rng.choice(temps), rng.uniform(temps[0], temps[-1])]:
+            for t in [rng.choice(temps), rng.uniform(temps[0], temps[-1]), temps[0] - rng.uniform(1, 50),
+                      temps[-1] + rng.uniform(1, 500)]:
                 try:
                     ch, cp = h.cia(t, grid), p.cia(t, grid)
                 except Exception as e:
@@ -350,6 +351,11 @@ def part_cia(ctx, tmp):
                     break
                 if not np.allclose(ch, cp, rtol=1e-10, atol=0):
                     bad = 'cia(%g) differs between the HITRAN and the pickle reader: %r vs %r' % (t, ch, cp)
+                elif t < temps[0] or t > temps[-1]:
+                    # outside the tabulated temperatures both readers hold the nearest tabulated temperature
+                    edge = p.cia(temps[0] if t < temps[0] else temps[-1], grid)
+                    if not np.allclose(cp, edge, rtol=1e-12, atol=1e-12 * float(np.max(np.abs(want)))):
+                        bad = 'cia(%g), outside the tabulated temperatures %r, is %r, not the edge values %r' % (t, temps, cp, edge)
         if h.pairName != pair:
             bad = 'HITRAN pair name %r, expected %r' % (h.pairName, pair)
         if bad:
